@@ -136,7 +136,44 @@ def check(ctx: Ctx) -> str:
     nat = repo.func("nativetypes:NativeCodeGenerator._output_child_to_const")
     ctx.check("has_safe_repr(const)" in ast.unparse(nat.node), "native:safe-repr", "nativetypes:NativeCodeGenerator._output_child_to_const", "safe repr gate", "native constant output must refuse values without a safe repr", nat.loc())
     r3_safe_repr(ctx)
+    visitor_forwarding_rule(ctx, "R4")
     return __doc__ or ""
+
+
+# reviewed calls that deliberately do not forward: (module, class, method, call text) -> reason
+NO_FORWARD = {
+    ("idtracking", "FrameSymbolVisitor", "visit_With", "self.visit(target)"): "the values of a with statement are plain loads: store_as_param / for_branch options must not apply to them",
+}
+
+
+def visitor_forwarding_rule(ctx: Ctx, rid: str) -> None:
+    """The optimizer receives the frame's eval context as the extra visitor argument; the
+    generic visitor machinery must hand it to every child (scalar and list fields alike),
+    otherwise sub-expressions are folded under a default EvalContext."""
+    ctx.use("visitor", "optimizer", "idtracking")
+    repo = ctx.repo
+    ctx.rule(rid, "visitor arguments are forwarded: in visitor / optimizer / idtracking every recursive visit / visit_list / generic_visit / resolved-visitor call inside a method taking *args / **kwargs passes them on")
+    n = 0
+    for mod in ("visitor", "optimizer", "idtracking"):
+        m = repo.module(mod)
+        for cls in [c for c in ast.walk(m.tree) if isinstance(c, ast.ClassDef)]:
+            for fn in [f for f in cls.body if isinstance(f, ast.FunctionDef)]:
+                va = fn.args.vararg.arg if fn.args.vararg else None
+                kw = fn.args.kwarg.arg if fn.args.kwarg else None
+                if not (va or kw):
+                    continue
+                for c in astq.calls(fn):
+                    f = astq.callee(c)
+                    if not (f in ("f", "super().generic_visit") or f.startswith("self.visit") or f == "self.generic_visit"):
+                        continue
+                    n += 1
+                    fa = va is None or any(isinstance(a, ast.Starred) and ast.unparse(a.value) == va for a in c.args)
+                    fk = kw is None or any(k.arg is None and ast.unparse(k.value) == kw for k in c.keywords)
+                    txt = ast.unparse(c)
+                    ok = (fa and fk) or (mod, cls.name, fn.name, txt) in NO_FORWARD
+                    ctx.check(ok, f"{mod}:{cls.name}.{fn.name}:{txt}", f"{mod}:{cls.name}.{fn.name}", f"`{txt}` drops {'*' + va if not fa and va else ''}{' ' if not fa and not fk else ''}{'**' + kw if not fk and kw else ''}",
+                              f"{cls.name}.{fn.name} visits a child with `{txt}` without forwarding its extra arguments: the optimizer then folds that child under a default EvalContext (wrong autoescape / volatile), symbol analysis loses its options", f"{m.rel}:{c.lineno}")
+    ctx.floor("forwarding sites", n, 15)
 
 
 def r3_safe_repr(ctx: Ctx, rid: str = "R3") -> None:
